@@ -277,6 +277,7 @@ PROFILES = {
                 "close": 0.8, "reset": 0.3, "keyupdate": 0.3, "rebind": 0.2, "corrupt": 0.5},
     "cids": {"write": 3, "deliver": 8, "drop": 1.5, "dup": 0.7, "swap": 1, "timer": 2, "changecid": 2.5, "ncid": 3,
              "rebind": 0.5, "keyupdate": 0.3},
+    "cidload": {"write": 3, "deliver": 5, "drop": 1, "timer": 3, "changecid": 3, "ncid": 1, "tick": 0.5},
     "amplify": {"write": 5, "deliver": 6, "drop": 2, "dup": 1, "timer": 3, "spoof": 2, "rebind": 1.5, "corrupt": 0.5, "changecid": 0.5},
     "ptoclose": {"write": 3, "drop": 5, "timer": 4, "deliver": 1, "close": 0.6, "corrupt": 0.3},
     "blackout": {"write": 4, "deliver": 6, "drop": 1, "timer": 2, "tick": 1, "blackout": 0.5},
